@@ -2,11 +2,13 @@
 mod proto;
 mod backupeng;
 mod codec;
+mod conc;
 mod configeng;
 mod damage;
 mod mem;
 mod persist;
 mod qcache;
+mod sched;
 mod ratelimit;
 mod shim;
 mod store;
@@ -28,6 +30,7 @@ fn main() {
         Some("validate") => validate::run(),
         Some("mem") => mem::run(),
         Some("codec") => codec::run(),
+        Some("conc") => conc::run(),
         _ => {
             eprintln!("usage: kvh <engine>");
             std::process::exit(2);
